@@ -16,16 +16,19 @@
 #define WMAX 8
 
 struct Call { int clen, plen; char c[WMAX + 1], p[WMAX + 1]; };
-static Call g_calls[3];
+// recorded calls: flat arrays per field (an array of structs holding char arrays gave a spurious CBMC counterexample)
+static int g_clen[3], g_plen[3];
+static char g_c[3][WMAX + 1], g_p[3][WMAX + 1];
 static int g_ncalls;
 
 // recorder replacing the real do_command
 void InterrogateBuilder::do_command(const std::string &command, const std::string &params) {
   if (g_ncalls < 3) {
-    Call &k = g_calls[g_ncalls];
-    k.clen = (int)command.size(); k.plen = (int)params.size();
+    int k = g_ncalls;
+    int cl = (int)command.size(), pl = (int)params.size();
+    g_clen[k] = cl; g_plen[k] = pl;
     const char *cd = command.data(), *pd = params.data();
-    for (int i = 0; i < WMAX; i++) { k.c[i] = i < k.clen ? cd[i] : 0; k.p[i] = i < k.plen ? pd[i] : 0; }
+    for (int i = 0; i < WMAX; i++) { g_c[k][i] = i < cl ? cd[i] : 0; g_p[k][i] = i < pl ? pd[i] : 0; }
   }
   g_ncalls++;
 }
@@ -59,10 +62,10 @@ static bool ref_split(const char *line, int len, Call *out) {
   for (int i = 0; i < WMAX; i++) out->p[i] = i < out->plen ? line[r + i] : 0;
   return true;
 }
-static bool same_call(const Call &a, const Call &b) {
-  if (a.clen != b.clen || a.plen != b.plen) return false;
+static bool same_call(int k, const Call &b) {
+  if (g_clen[k] != b.clen || g_plen[k] != b.plen) return false;
   bool eq = true;
-  for (int i = 0; i < WMAX; i++) if (a.c[i] != b.c[i] || a.p[i] != b.p[i]) eq = false;
+  for (int i = 0; i < WMAX; i++) if (g_c[k][i] != b.c[i] || g_p[k][i] != b.p[i]) eq = false;
   return eq;
 }
 
@@ -75,6 +78,9 @@ static InterrogateBuilder *raw_builder() {
 extern "C" void harness_c04_command_lines() {
   char l1[LMAX + 1], l2[L2MAX + 1], text[LMAX + L2MAX + 3];
   int n1 = sym_line(l1, LMAX), n2 = sym_line(l2, L2MAX);
+#ifdef DBGFIX
+  ASSUME(n1 == 1 && l1[0] == 'a' && n2 == 2 && l2[0] == 'b' && l2[1] == ' ');
+#endif
   int n = 0;
   for (int i = 0; i < LMAX; i++) if (i < n1) text[n++] = l1[i];
   text[n++] = '\n';
@@ -87,8 +93,8 @@ extern "C" void harness_c04_command_lines() {
   bool h1 = ref_split(l1, n1, &w1), h2 = ref_split(l2, n2, &w2);
   ASSERT(g_ncalls == (h1 ? 1 : 0) + (h2 ? 1 : 0), "C04 every line with a command reaches do_command exactly once, blank/comment lines never");
   int k = 0;
-  if (h1) { ASSERT(g_ncalls > k && same_call(g_calls[k], w1), "C04 command = first word, params = trimmed rest before '#' (line 1)"); k++; }
-  if (h2) { ASSERT(g_ncalls > k && same_call(g_calls[k], w2), "C04 command = first word, params = trimmed rest before '#' (line 2)"); k++; }
+  if (h1) { ASSERT(g_ncalls > k && same_call(k, w1), "C04 command = first word, params = trimmed rest before '#' (line 1)"); k++; }
+  if (h2) { ASSERT(g_ncalls > k && same_call(k, w2), "C04 command = first word, params = trimmed rest before '#' (line 2)"); k++; }
   WITNESS();
 }
 
@@ -102,7 +108,7 @@ extern "C" void harness_c04_command_lastline() {
   Call w1;
   bool h1 = ref_split(l1, n1, &w1);
   ASSERT(g_ncalls == (h1 ? 1 : 0), "C04 a command on an unterminated last line of the .N file is executed");
-  if (h1 && g_ncalls == 1) ASSERT(same_call(g_calls[0], w1), "C04 command = first word, params = trimmed rest before '#' (last line)");
+  if (h1 && g_ncalls == 1) ASSERT(same_call(0, w1), "C04 command = first word, params = trimmed rest before '#' (last line)");
   WITNESS();
 }
 
